@@ -237,6 +237,7 @@ func (w *work) one(cat string, src []byte) {
 		if st.jsonAttrs+st.jsonBlocks > 0 {
 			c.Observe("json_properties_walked", int64(st.jsonAttrs))
 			c.Observe("json_blocks_walked", int64(st.jsonBlocks))
+			c.Observe("json_name_ranges_compared_with_the_name", int64(st.jsonNames))
 		}
 		// evidence only: never a verdict
 		c.ObserveMax("max:parse_wall_us:"+en+":"+sizeClass(len(src)), st.dur.Microseconds())
